@@ -17,6 +17,11 @@ def families(tier, seed):
             for vec in (False, True):
                 out.append(dict(tag=f"{tag}/{T}/{dt}", features=dict(feats, dt=dt), kind="run", model=model, T=T, dt=dt, dts=None,
                                 solver="euler", vec=vec, only_vars=feats.get("only_vars")))
+    # two parallel edges between one pair of variables with different delays (fixed witness of a listed finding)
+    tag_, feats_, model_ = gen.parallel_delay_model("discrete")
+    for vec in (False, True):
+        T_, dt_ = (2.0, 0.1)
+        out.append(dict(tag=f"{tag_}/{T_}/{dt_}", features=dict(feats_, dt=dt_), kind="run", model=model_, T=T_, dt=dt_, dts=None, solver="euler", vec=vec))
     # the other fixed-step solver: the same delayed recurrence under Heun (both stages of step k read the source of step k - lag)
     for tag, feats, model in gen.delay_families("discrete"):
         if tag.split("-")[0] in ("D1", "D3"):
@@ -47,6 +52,16 @@ def rounding_fallback(chk):
                         g = object.__new__(mod.NetworkGraph)
                         g.step_size, g.step_size_adaptation = step, adapt
                         delay = mult * step
+                        if isinstance(mult, int) and mult and step in (0.25, 0.1):
+                            # delays typed as Python / numpy integers (YAML `delay: 2`, Connectivity(delays=2)) are times like any other
+                            import numpy as _np
+                            for dv in (int(mult), _np.int64(mult)):
+                                n += 1
+                                status, fl = native.check_call(c, K.CLASSES, dict(self=g, delay=dv, discretize=disc), fn=fn)
+                                if status == "violated":
+                                    fails.append(dict(site="C09/NetworkGraph._preprocess_delay", clauses=fl[:2],
+                                                      input=dict(delay=int(dv), delay_type=type(dv).__name__, step_size=step, adaptive=adapt, discretize=disc),
+                                                      features=dict(delay=int(dv), step=step, integer_typed=True)))
                         n += 1
                         status, fl = native.check_call(c, K.CLASSES, dict(self=g, delay=delay, discretize=disc), fn=fn)
                         if status == "violated":
